@@ -196,6 +196,64 @@ Print Assumptions C15_toplevel_module_folder_file_stays.
 Check C15_toplevel_module_folder_file_stays : forall c rc s r,
   c_luau c = true -> head_path c rc [Norm s] (Cur :: r) = inl (Cur :: r).
 
+
+(** what each kind of alias is relative to: configured sources/aliases to the configuration location
+    (wherever it is), .luaurc aliases to the directory of the nearest .luaurc (never joined again) *)
+Theorem C15_head_luaurc_alias_path_mode : forall c rcs src d al k v rest,
+  c_luau c = false -> c_use_rc c = true ->
+  first_rc rcs (ancestors src) = Some (d, al) -> assoc k al = Some v ->
+  assoc (at_sign :: k) (c_sources c) = None ->
+  head_path c (rc_aliases c rcs src) src (Norm (at_sign :: k) :: rest) = inl (extend (normalize false (join d v)) rest).
+Proof. exact head_luaurc_alias_path_mode. Qed.
+Print Assumptions C15_head_luaurc_alias_path_mode.
+Check C15_head_luaurc_alias_path_mode : forall c rcs src d al k v rest,
+  c_luau c = false -> c_use_rc c = true ->
+  first_rc rcs (ancestors src) = Some (d, al) -> assoc k al = Some v ->
+  assoc (at_sign :: k) (c_sources c) = None ->
+  head_path c (rc_aliases c rcs src) src (Norm (at_sign :: k) :: rest) = inl (extend (normalize false (join d v)) rest).
+
+Theorem C15_head_luaurc_alias_luau_mode : forall c rcs src d al k v rest,
+  c_luau c = true -> c_use_rc c = true ->
+  first_rc rcs (ancestors src) = Some (d, al) -> assoc k al = Some v ->
+  bytes_eqb (at_sign :: k) self_name = false ->
+  head_path c (rc_aliases c rcs src) src (Norm (at_sign :: k) :: rest) = inl (extend (normalize false (join d v)) rest).
+Proof. exact head_luaurc_alias_luau_mode. Qed.
+Print Assumptions C15_head_luaurc_alias_luau_mode.
+Check C15_head_luaurc_alias_luau_mode : forall c rcs src d al k v rest,
+  c_luau c = true -> c_use_rc c = true ->
+  first_rc rcs (ancestors src) = Some (d, al) -> assoc k al = Some v ->
+  bytes_eqb (at_sign :: k) self_name = false ->
+  head_path c (rc_aliases c rcs src) src (Norm (at_sign :: k) :: rest) = inl (extend (normalize false (join d v)) rest).
+
+Theorem C15_head_configured_source_path_mode : forall c rc src location name alias rest,
+  c_luau c = false -> c_project c = Some location -> assoc name (c_sources c) = Some alias ->
+  head_path c rc src (Norm name :: rest) = inl (extend (join location alias) rest).
+Proof. exact head_configured_source_path_mode. Qed.
+Print Assumptions C15_head_configured_source_path_mode.
+Check C15_head_configured_source_path_mode : forall c rc src location name alias rest,
+  c_luau c = false -> c_project c = Some location -> assoc name (c_sources c) = Some alias ->
+  head_path c rc src (Norm name :: rest) = inl (extend (join location alias) rest).
+
+Theorem C15_head_configured_alias_luau_mode : forall c rc src location k alias rest,
+  c_luau c = true -> c_project c = Some location -> bytes_eqb (at_sign :: k) self_name = false ->
+  rc_lookup rc (at_sign :: k) = None -> assoc (at_sign :: k) (c_sources c) = Some alias ->
+  head_path c rc src (Norm (at_sign :: k) :: rest) = inl (extend (join location alias) rest).
+Proof. exact head_configured_alias_luau_mode. Qed.
+Print Assumptions C15_head_configured_alias_luau_mode.
+Check C15_head_configured_alias_luau_mode : forall c rc src location k alias rest,
+  c_luau c = true -> c_project c = Some location -> bytes_eqb (at_sign :: k) self_name = false ->
+  rc_lookup rc (at_sign :: k) = None -> assoc (at_sign :: k) (c_sources c) = Some alias ->
+  head_path c rc src (Norm (at_sign :: k) :: rest) = inl (extend (join location alias) rest).
+
+Theorem C15_first_rc_nearest : forall rcs dirs d al,
+  first_rc rcs dirs = Some (d, al) ->
+  exists l1 l2, dirs = l1 ++ d :: l2 /\ rc_at rcs d = Some al /\ (forall x, In x l1 -> rc_at rcs x = None).
+Proof. exact first_rc_nearest. Qed.
+Print Assumptions C15_first_rc_nearest.
+Check C15_first_rc_nearest : forall rcs dirs d al,
+  first_rc rcs dirs = Some (d, al) ->
+  exists l1 l2, dirs = l1 ++ d :: l2 /\ rc_at rcs d = Some al /\ (forall x, In x l1 -> rc_at rcs x = None).
+
 (** the written argument is read back as the generated path *)
 Theorem C15_parse_write_roundtrip : forall p, wf_rel p = true -> parse_path (write_require_path p) = p.
 Proof. exact parse_write_roundtrip. Qed.
